@@ -550,6 +550,7 @@ void SignalHandler::SetHandler(InterruptHandler handler, void *data) {
   // No callback while the pair is replaced, so that a signal in between
   // never sees the new callback with the old data or vice versa.
   handler_ = 0;
+  MP_VERIF_SIGPOINT("sethandler:handler-cleared");
   data_ = data;
   MP_VERIF_SIGPOINT("sethandler:handler-stored");
   handler_ = handler;
